@@ -4,6 +4,7 @@ import (
 	"context"
 	"errors"
 	"fmt"
+	"math"
 
 	"git.defalsify.org/vise.git/cache"
 	"git.defalsify.org/vise.git/render"
@@ -315,6 +316,9 @@ func (vm *Vm) runLoad(ctx context.Context, b []byte) ([]byte, error) {
 	sym, sz, b, err := ParseLoad(b)
 	if err != nil {
 		return b, err
+	}
+	if sz > math.MaxUint16 {
+		return b, fmt.Errorf("size %v of symbol '%s' out of range (max %v)", sz, sym, math.MaxUint16)
 	}
 	_, err = vm.ca.Get(sym)
 	if err == nil {
